@@ -104,7 +104,7 @@ func loopBody(s ast.Stmt) []ast.Stmt {
 func checkC04(p *Prog, res *Result, tier string) {
 	res.Technique = "book-keeping rules for every place where the CPU planner hands out pieces or memory: path enumeration with a linear symbolic state over the planning loops (value written into a plan = amount taken off the core; re-insertion only with pieces left), pool-membership and move rules, same-key rule for the per-NUMA planning, pairing of each plan with its subtraction from the available resource, truncation and admission guards (dominance), validate-before-write"
 	res.Explanation = "PAIR in the full-core planners (heap and affinity variants) every path through the innermost loop writes into the plan exactly what it takes off the core's pieces, and the core is kept for a later plan only on a path past `pieces left > 0`; FRAG a core yields pieces/fragment fragment plans of `fragment` pieces each; " +
-		"POOL newHost puts a core into the full pool only if its free pieces are a positive multiple of the share base and into the fragment pool only if it has free pieces; MOVE when full cores become fragment cores they are removed from the full pool in the same step ([:k] with [k:], [0] with [1:]), so no core is planned from both pools; " +
+		"POOL newHost puts a core into the full pool only if its free pieces are a positive multiple of the share base and into the fragment pool only if it has free pieces; FULL the full-core planners are only ever called with the full pool (h.fullCores), for which that book-keeping is exact; MOVE when full cores become fragment cores they are removed from the full pool in the same step ([:k] with [k:], [0] with [1:]), so no core is planned from both pools; " +
 		"NUMA the plans of a NUMA node are computed from that node's cores (numaCPUMap[id], built from the capacity topology with the available pieces of each core) and that node's free memory (NUMAMemory[id]), are labelled with the same id, and each is subtracted (pieces, memory, NUMA memory under the same id) from the available resource before the cross-node remainder is planned; " +
 		"MEM the plans of one planning call are cut to availableMemory / memoryRequest, the memory-only allocation is refused when availableMemory / request < count, the CPU allocation is refused when fewer plans than instances exist and uses exactly the first `count` plans; AVL the available resource is capacity minus usage on a deep copy; ADM a re-allocation returns the origin to the pool and then admits the full new request (origin + delta), not the delta, in both branches; " +
 		"REC the recorded workload resources carry the plan's core map and NUMA node, and NUMA memory under that node; VAL a node's resource record is validated (usage ≤ capacity per core and per NUMA node) before it is written."
@@ -127,6 +127,43 @@ func checkC04(p *Prog, res *Result, tier string) {
 	c04NUMA(p, res)
 	c04Mem(p, res)
 	c04Rec(p, res)
+	// FULL: the full-core planners only ever see the full pool: their "keep the core while pieces are left" step is exact
+	// only for cores whose free pieces are a multiple of the share base, which is what POOL guarantees for h.fullCores
+	{
+		n := 0
+		for _, fn := range p.sortedFuncs(c04Sched) {
+			if fn.Body == nil {
+				continue
+			}
+			fn.inspectBody(func(x ast.Node) bool {
+				c, ok := x.(*ast.CallExpr)
+				if !ok || fn.Callee(c) == nil || len(c.Args) != 2 {
+					return true
+				}
+				nm := fn.Callee(c).Name()
+				if nm != "getFullCPUPlans" && nm != "getFullCPUPlansWithAffinity" {
+					return true
+				}
+				n++
+				key := fmt.Sprintf("%s / call #%d of %s plans over the full pool only", fn.Name, n, nm)
+				arg := unparen(c.Args[0])
+				okArg := false
+				if sel, ok := arg.(*ast.SelectorExpr); ok && sel.Sel.Name == "fullCores" {
+					okArg = true
+				}
+				// the affinity variant is reached from getFullCPUPlans with its own parameter
+				if id, ok := arg.(*ast.Ident); ok && fn.Obj != nil && fn.Obj.Name() == "getFullCPUPlans" && fn.paramIndex(fn.objOf(id)) >= 0 {
+					okArg = true
+				}
+				res.check(okArg, "FULL", key, p.pos(c), "the core list is h.fullCores", "the full-core planner is handed `"+exprStr(arg)+"`, not the full pool: a core whose free pieces are not a multiple of the share base is taken a whole share at a time and kept while `pieces > 0`, so its last plan takes more than it has")
+				return true
+			})
+		}
+		res.min("FULL", 3)
+		if n == 0 {
+			res.undecided("FULL", "calls of the full-core planners", "", "none found")
+		}
+	}
 	// ADM (shared with C10): a re-allocation is admitted by testing the FULL new request (origin + delta) against the pool
 	// to which the origin was returned, in the CPU-bound and in the memory branch
 	checkReallocAdmission(p, res)
